@@ -24,6 +24,9 @@ the sites in `$VERIF_REPO/ariadne_codegen` with the `ast` module:
   state:cache   @lru_cache / @cache / @functools.* decorated function (key: decorator + function name)
   state:mutate  a module-level container (by name, any file) mutated: .setdefault/.update/.append/.../ x[k] = v / del
   state:global  `global NAME` statement
+  fs:meta     a read (or write) of file METADATA: .st_mtime/.st_mtime_ns/.st_ctime/.st_atime/.st_size/.st_ino attributes,
+              os.path.getmtime/getctime/getatime/getsize, os.utime — what a generator would consult to decide that an
+              existing file is "up to date"
   nondet:import   import of a module whose use makes results depend on scheduling, time or chance: concurrent.futures,
               threading, multiprocessing, asyncio, queue, random, secrets, uuid, time, signal, sched, selectors
   nondet:call     ThreadPoolExecutor / ProcessPoolExecutor / Thread / Pool / executor.submit / as_completed / wait /
@@ -379,6 +382,11 @@ class FileScan:
             elif isinstance(n, ast.Call) and isinstance(n.func, ast.Name) and n.func.id in ("set", "frozenset"):
                 # generated-code AST such as generate_call(func=generate_name("set")) is text, not a call
                 self.add(n, "construct")
+            if isinstance(n, ast.Attribute) and re.match(r"^st_(mtime|ctime|atime|birthtime)(_ns)?$|^st_(size|ino|mode)$", n.attr):
+                self.add(n, "fs:meta")
+            if isinstance(n, ast.Call) and ast.unparse(n.func) in ("os.path.getmtime", "os.path.getctime", "os.path.getatime",
+                                                                   "os.path.getsize", "os.utime", "getmtime", "getsize"):
+                self.add(n, "fs:meta", n.func)
             if isinstance(n, (ast.Import, ast.ImportFrom)):
                 mods = [a.name for a in n.names] if isinstance(n, ast.Import) else [n.module or ""]
                 if any(m in NONDET_MODULES or m.split(".")[0] in NONDET_MODULES for m in mods):
